@@ -1082,6 +1082,8 @@ def triggers(lib, target):
                 for k in cdef["comps"]:
                     ty = orc.comp_type(k, cp)
                     walk_spelling(k["mods"], ("leaf",) if ty[0] == "leaf" else ty[1])
+                    if cp != cpath and is_local(cp) and k["type"] not in BUILTIN and (k["mods"] or k["value"] is not None):
+                        out.add("RE")      # scopes noted at the first instantiation of the local base class
                 for n in cdef["classes"]:
                     if n["kind"] != "package" and n["alias"] is None:
                         nr = cp + (n["name"],)
